@@ -264,6 +264,27 @@ func buildWorld(c *c21Case) *c21World {
 	for i := 0; i < 3; i++ {
 		t := g.Tree(w.p.RootType(), w.sch)
 		b, _ := json.Marshal(model.TreeJSON(reflect.ValueOf(t)))
+		if i == 1 {
+			// one document spells its top-level members the RFC 7951 way, "module:name"
+			tj := model.TreeJSON(reflect.ValueOf(t))
+			qualified := map[string]interface{}{}
+			rt := reflect.TypeOf(t).Elem()
+			for fi := 0; fi < rt.NumField(); fi++ {
+				sf := rt.Field(fi)
+				name := strings.Split(strings.Split(sf.Tag.Get("path"), "|")[0], "/")[0]
+				mod := strings.Split(strings.Split(sf.Tag.Get("module"), "|")[0], "/")[0]
+				if v, ok := tj[name]; ok && mod != "" {
+					qualified[mod+":"+name] = v
+					delete(tj, name)
+				}
+			}
+			for k, v := range tj {
+				qualified[k] = v
+			}
+			if qb, err := json.Marshal(qualified); err == nil {
+				b = qb
+			}
+		}
 		w.docs = append(w.docs, b)
 		var jt interface{}
 		if err := json.Unmarshal(b, &jt); err != nil {
